@@ -9,6 +9,7 @@ and then use trimesh operations on them at any point.
 """
 
 import abc
+import copy
 
 import numpy as np
 
@@ -135,6 +136,11 @@ class Primitive(Trimesh):
         kwargs.update(self.to_dict())
         # remove the type indicator, i.e. `Cylinder`
         kwargs.pop("kind")
+        # the tessellation parameters are not part of the
+        # serialized form but they are part of the primitive
+        for key in ("sections", "subdivisions"):
+            if key in self.primitive._defaults and key not in kwargs:
+                kwargs[key] = getattr(self.primitive, key)
         # create a new object with kwargs
         primitive_copy = type(self)(**kwargs)
 
@@ -143,11 +149,11 @@ class Primitive(Trimesh):
             primitive_copy.visual = self.visual.copy()
 
         # copy metadata
-        primitive_copy.metadata = self.metadata.copy()
+        primitive_copy.metadata = copy.deepcopy(self.metadata)
 
         for k, v in self._data.data.items():
             if k not in primitive_copy._data:
-                primitive_copy._data[k] = v
+                primitive_copy._data[k] = copy.deepcopy(v)
 
         return primitive_copy
 
